@@ -536,6 +536,20 @@ def strategy_table(ctx):
                     table.setdefault(const_val(t.slice), set()).update(possible(n.value))
                 if isinstance(t, ast.Attribute) and t.attr == 'transients' and isinstance(n.value, (ast.List, ast.Tuple)):
                     transients.extend(const_val(e) for e in n.value.elts)
+    # {path: <strategy> for path in strategies.transients}: one entry per transient path
+    for n in walk_no_nested(fn):
+        if isinstance(n, ast.Call) and n.args and isinstance(n.args[0], ast.DictComp):
+            d = dotted(n.func) or ''
+            dc = n.args[0]
+            if (d.endswith('Strategies') or d.endswith('.update')) and len(dc.generators) == 1:
+                it = dc.generators[0].iter
+                tgt = dc.generators[0].target
+                if isinstance(it, ast.Attribute) and it.attr == 'transients' and isinstance(tgt, ast.Name) and \
+                        isinstance(dc.key, ast.Name) and dc.key.id == tgt.id and not dc.generators[0].ifs:
+                    for pth in transients:
+                        table.setdefault(pth, set()).update(possible(dc.value))
+                else:
+                    raise AnalysisError('strategy table is updated from a comprehension the analyser cannot bound: %s' % ast.unparse(dc)[:80])
     if len(table) < 10:
         raise AnalysisError('strategy table extraction found only %d paths' % len(table))
     for k, v in table.items():
@@ -628,6 +642,15 @@ def base_lookups_by_diff_key(ctx, rule):
                         if isinstance(c.ops[0], ast.In) and l == kname and r == B:
                             evidence = 'bound: %s' % ast.unparse(c)
             if evidence is None:
+                # early exit `if isinstance(B, dict) and key not in B: return ...` before the lookup
+                for t, pol in guards:
+                    if pol is False:
+                        conj = t.values if isinstance(t, ast.BoolOp) and isinstance(t.op, ast.And) else [t]
+                        rest = [c for c in conj if not (isinstance(c, ast.Call) and dotted(c.func) == 'isinstance' and c.args and dotted(c.args[0]) == B)]
+                        if len(rest) == 1 and isinstance(rest[0], ast.Compare) and len(rest[0].ops) == 1 and isinstance(rest[0].ops[0], ast.NotIn) and \
+                                ast.unparse(rest[0].left) == kname and ast.unparse(rest[0].comparators[0]) == B:
+                            evidence = 'bound: lookups with an absent key leave before this point (%s)' % ast.unparse(t)
+            if evidence is None:
                 for t, pol in guards:
                     if not pol or not isinstance(t, (ast.Compare, ast.BoolOp)):
                         continue
@@ -672,8 +695,54 @@ def base_lookups_by_diff_key(ctx, rule):
     return n_sites
 
 
+def status_never_aborts(ctx, rule):
+    """git merge-file exits with the NUMBER of conflicts (1..127), diff3 with 1 on conflicts: every status in 0..127 is a
+    normal outcome of a text merge of valid sources.  No `raise`/failing assert in the renderer family may be reachable
+    for such a status (evaluated over representative statuses with the constant evaluator)."""
+    repo = ctx.repo
+    PPM_ = 'nbdime.prettyprint'
+    for name in ('external_merge_render', 'merge_render_with_git', 'merge_render_with_diff3', 'merge_render'):
+        fn = repo.func('%s:%s' % (PPM_, name))
+        defs = local_defs(fn)
+        status_vars = set()
+        for nm, ds in defs.items():
+            for v, k, st in ds:
+                if any(isinstance(x, ast.Attribute) and x.attr == 'returncode' for x in ast.walk(v)) or \
+                        (k == 'unpack' and isinstance(v, ast.Call) and last_attr(v) in ('external_merge_render', 'merge_render_with_git', 'merge_render_with_diff3')
+                         and isinstance(st, ast.Assign) and isinstance(st.targets[0], ast.Tuple) and len(st.targets[0].elts) == 2
+                         and isinstance(st.targets[0].elts[1], ast.Name) and st.targets[0].elts[1].id == nm):
+                    status_vars.add(nm)
+        g = CFG(fn)
+        aborts = [n for n in walk_no_nested(fn) if isinstance(n, (ast.Raise, ast.Assert))]
+        bad = None
+        for a in aborts:
+            tests = [(t, pol) for t, pol in cond_guards(g, a)]
+            if isinstance(a, ast.Assert):
+                tests.append((a.test, False))
+            if not any(status_vars & names_in(t) for t, pol in tests) and not any(
+                    isinstance(x, ast.Attribute) and x.attr == 'returncode' for t, pol in tests for x in ast.walk(t)):
+                continue
+            for sv in (0, 1, 2, 3, 17, 127):
+                ev = Evaluator({v: sv for v in status_vars} | {'p.returncode': sv})
+                verdicts = []
+                for t, pol in tests:
+                    tr = ev.truth(ev.ev(t))
+                    verdicts.append(UNKNOWN if tr is UNKNOWN else (tr is pol))
+                if all(v is not False for v in verdicts) and any(v is True for v in verdicts):
+                    bad = (a, sv)
+                    break
+            if bad:
+                break
+        ctx.inst(rule, '%s:%s' % (PPM_, name), 'status variables %s; %d raise/assert statement(s)' % (sorted(status_vars), len(aborts)), bad is None,
+                 'no abort is reachable for an exit status in 0..127 (git merge-file returns the number of conflicts)' if bad is None else
+                 '`%s` is reached for exit status %d: git merge-file reports %d conflict regions that way, so a valid merge aborts' % (
+                     repo.norm(bad[0])[:80], bad[1], bad[1]), bad[0] if bad else fn)
+
+
 def run(ctx):
+    ctx.rule('R03.11', 'the exit status of the external text-merge tool never aborts the merge: no raise/assert reachable for a status in 0..127', floor=4)
     ctx.rule('R03.10', 'a base container is indexed with a diff/decision key only where the key is known to exist in base '
              '(bound test, patch/remove chunk, or schema-required field)', floor=5)
     _run_base(ctx)
     base_lookups_by_diff_key(ctx, 'R03.10')
+    status_never_aborts(ctx, 'R03.11')
